@@ -122,7 +122,8 @@ func (s *HeaderScanner) Next() bool {
 	s.Key = s.B[:n]
 	utils.NormalizeHeaderKey(s.Key, s.DisableNormalizing)
 	n++
-	for len(s.B) > n && s.B[n] == ' ' {
+	// optional whitespace around a field value is SP / HTAB (RFC 7230 3.2.3)
+	for len(s.B) > n && (s.B[n] == ' ' || s.B[n] == '\t') {
 		n++
 		// the newline index is a relative index, and lines below trimmed `s.b` by `n`,
 		// so the relative newline index also shifted forward. it's safe to decrease
@@ -175,7 +176,7 @@ func (s *HeaderScanner) Next() bool {
 	if n > 0 && s.Value[n-1] == '\r' {
 		n--
 	}
-	for n > 0 && s.Value[n-1] == ' ' {
+	for n > 0 && (s.Value[n-1] == ' ' || s.Value[n-1] == '\t') {
 		n--
 	}
 	s.Value = s.Value[:n]
